@@ -80,3 +80,44 @@ func VH_C04_history() {
 	}
 	vrt.Reach("end")
 }
+
+// VH_C04_series_rows_per_type: one stream whose entries are of symbolic sample types (log, metric, both) over
+// one or two days, not yet announced: the series rows emitted for it cover, for every day and every entry, a
+// row whose type the reader's filter "type IN (<api type>, 0)" finds - a row of the entry's own type or of
+// type 0 ("both") for that day.
+func VH_C04_series_rows_per_type() {
+	vrt.Unwind(300)
+	vhSetFingerprintType(1)
+	cache := &vhSetCache{seen: map[uint64]bool{}}
+	pd := &parserDoer{ctx: &ParserCtx{fpCache: cache}}
+	pd.tsSpl = newTimeSeriesAndSamples(make(chan *model.ParserResponse, 4), "")
+	instants := []int64{1710028799000000000, 1710028801000000000} // either side of a UTC midnight
+	n := vrt.Len("entries", 1, 3)
+	var tss []int64
+	var tps []uint8
+	var msgs []string
+	var vals []float64
+	for i := 0; i < n; i++ {
+		tss = append(tss, instants[vrt.Choice("entry-instant", 2)])
+		tps = append(tps, uint8(vrt.Choice("entry-type", 3))) // 0 both, 1 log, 2 metric
+		msgs = append(msgs, "l")
+		vals = append(vals, 1)
+	}
+	err := pd.onEntries([][]string{{"job", "x"}}, tss, msgs, vals, tps)
+	vrt.Assert(err == nil, "entries-accepted")
+	var col proto.ColDate
+	for _, d := range pd.tsSpl.ts.MDate {
+		col.Append(d)
+	}
+	for i := 0; i < n; i++ {
+		day := (tss[i] / 1000000000) / 86400
+		found := false
+		for k := range pd.tsSpl.ts.MDate {
+			if int64(col[k]) == day && (pd.tsSpl.ts.MType[k] == tps[i] || pd.tsSpl.ts.MType[k] == 0) {
+				found = true
+			}
+		}
+		vrt.Assert(found, "entry-has-a-series-row-of-its-type-for-its-day")
+	}
+	vrt.Reach("end")
+}
